@@ -1,2 +1,1385 @@
+//! C19 — serialised models and parameter sets deserialise to behaviourally identical values.
+//!
+//! Every value is produced by the real constructor / the real `fit` on small symbolic data (one model
+//! per explored fit path), sent through `bincode` (and `serde_json`: scalars travel as arena handles,
+//! so both formats are lossless) and compared with the original: `==` where `PartialEq` exists, every
+//! public accessor element-wise `identical()` (same term / same bits), predictions / transforms on a
+//! fresh symbolic row, `check()` verdicts of parameter sets and the model of a refit.
+//!
+//! Types whose scalar is not generic (logistic regression and the Tweedie GLM through argmin, Gaussian
+//! mixture and whitening through LAPACK-style decompositions) are round-tripped with plain `f64` on small
+//! constant data in `c19.concrete`: those obligations are *concrete* (one execution), not solver-decided.
 use crate::common::*;
-pub fn register(_v: &mut Vec<HarnessDef>) {}
+use crate::harness;
+use linfa::prelude::*;
+use ndarray::{Array1, Array2};
+use serde::de::DeserializeOwned;
+use serde::{Deserialize, Serialize};
+use std::fmt::Debug;
+
+pub trait SS: Scalar + Serialize + DeserializeOwned {}
+impl<T: Scalar + Serialize + DeserializeOwned> SS for T {}
+
+// ------------------------------------------------------------------------------------------ plumbing
+
+/// add one to the `k`-th (1-based) numeric leaf of a JSON value; returns the leaves left to skip
+fn bump_leaf(v: &mut serde_json::Value, k: &mut i64) -> bool {
+    use serde_json::Value;
+    match v {
+        Value::Number(n) => {
+            *k -= 1;
+            if *k == 0 {
+                *v = if let Some(u) = n.as_u64() {
+                    Value::from(u + 1)
+                } else if let Some(i) = n.as_i64() {
+                    Value::from(i + 1)
+                } else {
+                    Value::from(n.as_f64().unwrap() + 1.0)
+                };
+                return true;
+            }
+            false
+        }
+        Value::Bool(b) => {
+            *k -= 1;
+            if *k == 0 {
+                *v = Value::Bool(!*b);
+                return true;
+            }
+            false
+        }
+        Value::Array(a) => a.iter_mut().any(|x| bump_leaf(x, k)),
+        Value::Object(o) => o.iter_mut().any(|(_, x)| bump_leaf(x, k)),
+        _ => false,
+    }
+}
+
+/// What the two round trips returned.  `json` went through the optional mutation (self-test of the
+/// obligations: `mut=k` perturbs the k-th numeric/boolean leaf of the JSON document before it is read back).
+static GENERIC: std::sync::atomic::AtomicBool = std::sync::atomic::AtomicBool::new(true);
+fn setup(p: &Params) -> i64 {
+    GENERIC.store(p.get("generic", 1) != 0, std::sync::atomic::Ordering::Relaxed);
+    p.get("mut", 0)
+}
+
+/// `Debug` rendering with ndarray's memory-layout details (strides, layout flags) removed: they describe the
+/// representation in memory, not the value
+fn dbg_norm<T: Debug>(x: &T) -> String {
+    let mut s = format!("{:?}", x);
+    while let Some(a) = s.find("strides=[") {
+        match s[a..].find("const ndim=") {
+            Some(b) => s.replace_range(a..a + b, ""),
+            None => break,
+        }
+    }
+    s
+}
+
+struct Restored<T> {
+    bin: Option<T>,
+    json: Option<T>,
+}
+
+impl<T> Restored<T> {
+    fn each(&self) -> Vec<(&'static str, &T)> {
+        let mut v = vec![];
+        if let Some(b) = &self.bin {
+            v.push(("bincode", b));
+        }
+        if let Some(j) = &self.json {
+            v.push(("json", j));
+        }
+        v
+    }
+}
+
+/// `ordered`: the serialised form does not depend on a `HashMap` iteration order, so the bytes and the
+/// `Debug` rendering of the restored value can be compared with those of the original.
+fn roundtrip<T: Serialize + DeserializeOwned + Debug>(tag: &str, x: &T, ordered: bool, mutate: i64) -> Restored<T> {
+    roundtrip_opts(tag, x, ordered, mutate, true)
+}
+
+/// `json = false`: the value holds a non-finite float, which JSON cannot represent (not a lossless format for it)
+fn roundtrip_opts<T: Serialize + DeserializeOwned + Debug>(tag: &str, x: &T, ordered: bool, mutate: i64, json: bool) -> Restored<T> {
+    // self-test switch (`generic=0`): leave out the type-independent comparisons, so that a perturbed
+    // document has to be caught by the type-specific obligations
+    let ordered = ordered && GENERIC.load(std::sync::atomic::Ordering::Relaxed);
+    let mut out = Restored { bin: None, json: None };
+    // ---- bincode
+    match bincode::serialize(x) {
+        Err(_) => check_bool(&format!("{}.bincode serialises", tag), false),
+        Ok(bytes) => match bincode::deserialize::<T>(&bytes) {
+            Err(_) => check_bool(&format!("{}.bincode deserialises", tag), false),
+            Ok(y) => {
+                check_bool(&format!("{}.bincode round trip succeeds", tag), true);
+                if ordered {
+                    check_bool(&format!("{}.bincode: the restored value serialises to the same bytes", tag), bincode::serialize(&y).map(|b| b == bytes).unwrap_or(false));
+                    check_bool(&format!("{}.bincode: Debug rendering unchanged", tag), dbg_norm(&y) == dbg_norm(x));
+                }
+                out.bin = Some(y);
+            }
+        },
+    }
+    if !json {
+        return out;
+    }
+    // ---- serde_json (as a document: checks the structure, field names and order independence)
+    match serde_json::to_value(x) {
+        Err(_) => check_bool(&format!("{}.json serialises", tag), false),
+        Ok(mut doc) => {
+            if mutate > 0 {
+                let mut k = mutate;
+                if !bump_leaf(&mut doc, &mut k) {
+                    note(&format!("{}: mut={} is beyond the {} numeric/boolean leaves of the document", tag, mutate, mutate - k));
+                }
+            }
+            match serde_json::from_value::<T>(doc.clone()) {
+                Err(_) => check_bool(&format!("{}.json deserialises", tag), false),
+                Ok(z) => {
+                    check_bool(&format!("{}.json round trip succeeds", tag), true);
+                    if ordered {
+                        check_bool(&format!("{}.json: the restored value serialises to the same document", tag), serde_json::to_value(&z).map(|d| d == doc).unwrap_or(false));
+                        check_bool(&format!("{}.json: Debug rendering unchanged", tag), dbg_norm(&z) == dbg_norm(x));
+                        check_bool(&format!("{}.json: same bincode bytes as the original", tag), bincode::serialize(&z).ok() == bincode::serialize(x).ok());
+                    }
+                    out.json = Some(z);
+                }
+            }
+        }
+    }
+    out
+}
+
+fn same<F: Scalar>(a: F, b: F) -> bool {
+    a.identical(b)
+}
+fn same1<F: Scalar>(a: &Array1<F>, b: &Array1<F>) -> bool {
+    a.len() == b.len() && a.iter().zip(b.iter()).all(|(x, y)| x.identical(*y))
+}
+fn same2<F: Scalar>(a: &Array2<F>, b: &Array2<F>) -> bool {
+    a.dim() == b.dim() && a.iter().zip(b.iter()).all(|(x, y)| x.identical(*y))
+}
+fn same_opt<F: Scalar>(a: &Option<F>, b: &Option<F>) -> bool {
+    match (a, b) {
+        (Some(x), Some(y)) => x.identical(*y),
+        (None, None) => true,
+        _ => false,
+    }
+}
+
+fn sym_matrix<F: Scalar>(name: &str, n: usize, d: usize, b: i64) -> Array2<F> {
+    let mut x = Array2::from_elem((n, d), F::lit(0.0));
+    for i in 0..n {
+        for j in 0..d {
+            x[(i, j)] = int::<F>(&format!("{}{}_{}", name, i, j), -b, b);
+        }
+    }
+    x
+}
+/// design matrix: symbolic integers (`xconst=0`) or the constants (i+1)^2 + 2j - 3 (`xconst=1`): the learned
+/// quantities then stay symbolic through the targets while the factorisation itself does not branch
+fn design<F: Scalar>(p: &Params, n: usize, d: usize, b: i64) -> Array2<F> {
+    if p.u("xconst", 0) == 1 {
+        let mut x = Array2::from_elem((n, d), F::lit(0.0));
+        for i in 0..n {
+            for j in 0..d {
+                x[(i, j)] = F::lit(((i + 1) * (i + 1) + 2 * j) as f64 - 3.0);
+            }
+        }
+        x
+    } else {
+        sym_matrix::<F>("x", n, d, b)
+    }
+}
+fn sym_vector<F: Scalar>(name: &str, n: usize, b: i64) -> Array1<F> {
+    Array1::from_iter((0..n).map(|i| int::<F>(&format!("{}{}", name, i), -b, b)))
+}
+
+/// A serialisable random number generator for the parameter sets that carry one (the crates' `serde`
+/// feature does not turn on `rand_xoshiro/serde1`, so their default generator cannot be serialised).
+#[derive(Clone, Debug, PartialEq, Serialize, Deserialize)]
+pub struct SerRng(pub u64);
+impl rand::RngCore for SerRng {
+    fn next_u32(&mut self) -> u32 {
+        (self.next_u64() >> 32) as u32
+    }
+    fn next_u64(&mut self) -> u64 {
+        // splitmix64
+        self.0 = self.0.wrapping_add(0x9E37_79B9_7F4A_7C15);
+        let mut z = self.0;
+        z = (z ^ (z >> 30)).wrapping_mul(0xBF58_476D_1CE4_E5B9);
+        z = (z ^ (z >> 27)).wrapping_mul(0x94D0_49BB_1331_11EB);
+        z ^ (z >> 31)
+    }
+    fn fill_bytes(&mut self, dest: &mut [u8]) {
+        for c in dest.chunks_mut(8) {
+            let b = self.next_u64().to_le_bytes();
+            c.copy_from_slice(&b[..c.len()]);
+        }
+    }
+    fn try_fill_bytes(&mut self, dest: &mut [u8]) -> Result<(), rand::Error> {
+        self.fill_bytes(dest);
+        Ok(())
+    }
+}
+
+/// verdict of a parameter check as a comparable string
+fn verdict<T, E: std::fmt::Display>(r: &Result<T, E>) -> String {
+    match r {
+        Ok(_) => "ok".to_string(),
+        Err(e) => format!("err: {}", e),
+    }
+}
+
+// -------------------------------------------------------------------------- plain (scalar-free) types
+
+/// unit structs and plain enums: every value round-trips to an equal value
+fn plain<F: SS>(p: &Params) {
+    use linfa_nn::distance::{L1Dist, L2Dist, LInfDist};
+    use linfa_nn::{BallTree, CommonNearestNeighbour, KdTree, LinearSearch};
+    let mutate = setup(p);
+    macro_rules! eqs {
+        ($tag:expr, $v:expr) => {{
+            let v = $v;
+            let r = roundtrip($tag, &v, true, mutate);
+            for (fmt, y) in r.each() {
+                check_bool(&format!("{}.{}: restored == original", $tag, fmt), *y == v);
+            }
+        }};
+    }
+    macro_rules! dbg_only {
+        ($tag:expr, $v:expr) => {{
+            let v = $v;
+            let r = roundtrip($tag, &v, true, mutate);
+            for (fmt, y) in r.each() {
+                check_bool(&format!("{}.{}: same Display", $tag, fmt), format!("{}", y) == format!("{}", v));
+            }
+        }};
+    }
+    for nn in [CommonNearestNeighbour::LinearSearch, CommonNearestNeighbour::KdTree, CommonNearestNeighbour::BallTree] {
+        eqs!("CommonNearestNeighbour", nn);
+    }
+    eqs!("KdTree", KdTree);
+    eqs!("BallTree", BallTree);
+    eqs!("LinearSearch", LinearSearch);
+    eqs!("L1Dist", L1Dist);
+    eqs!("L2Dist", L2Dist);
+    eqs!("LInfDist", LInfDist);
+    eqs!("Dbscan", linfa_clustering::Dbscan);
+    eqs!("Optics", linfa_clustering::Optics);
+    for c in [linfa_clustering::GmmCovarType::Full] {
+        eqs!("GmmCovarType", c);
+    }
+    for m in [linfa_clustering::GmmInitMethod::KMeans, linfa_clustering::GmmInitMethod::Random] {
+        eqs!("GmmInitMethod", m);
+    }
+    for q in [linfa_trees::SplitQuality::Gini, linfa_trees::SplitQuality::Entropy] {
+        eqs!("SplitQuality", q);
+    }
+    for l in [linfa_linear::Link::Identity, linfa_linear::Link::Log, linfa_linear::Link::Logit] {
+        eqs!("Link", l);
+    }
+    for fi in [true, false] {
+        eqs!("LinearRegression", linfa_linear::LinearRegression::new().with_intercept(fi));
+    }
+    eqs!("IsotonicRegression", linfa_linear::IsotonicRegression::new());
+    for r in [linfa_svm::ExitReason::ReachedThreshold, linfa_svm::ExitReason::ReachedIterations] {
+        eqs!("ExitReason", r);
+    }
+    for n in [linfa_preprocessing::norm_scaling::NormScaler::l1(), linfa_preprocessing::norm_scaling::NormScaler::l2(), linfa_preprocessing::norm_scaling::NormScaler::max()] {
+        // NormScaler has no PartialEq: Debug rendering and behaviour (c19.scaler) are compared
+        let _ = roundtrip("NormScaler", &n, true, mutate);
+    }
+    for w in [linfa_preprocessing::whitening::Whitener::pca(), linfa_preprocessing::whitening::Whitener::zca(), linfa_preprocessing::whitening::Whitener::cholesky()] {
+        let _ = roundtrip("Whitener", &w, true, mutate);
+    }
+    // error enums: equality is not defined; the message and the Debug rendering must survive
+    use linfa::Error as LE;
+    // variants declared before the serde(skip) variant; the two after it are in `c19.error_after_skip`
+    for e in [LE::Parameters("p".into()), LE::Priors("q".into()), LE::NotConverged("r".into())] {
+        dbg_only!("linfa::Error", e);
+    }
+    // the NdShape variant is marked serde(skip): it is refused by the serialiser instead of being written as
+    // something else (documented in the source; stated here so that a silent change shows)
+    let shape = LE::NdShape(Array2::<f64>::zeros((1, 2)).into_shape((3, 3)).unwrap_err());
+    check_bool("linfa::Error.the skipped NdShape variant is refused, not written as another variant", bincode::serialize(&shape).is_err() && serde_json::to_value(&shape).is_err());
+    use linfa::composing::platt_scaling::PlattError as PE;
+    for e in [PE::LineSearchNotConverged, PE::MaxIterReached, PE::MaxIterZero, PE::MinStepNegative(-1.5), PE::SigmaNegative(-0.25), PE::LinfaError(LE::Parameters("p".into()))] {
+        dbg_only!("PlattError", e);
+    }
+    use linfa_elasticnet::ElasticNetError as EE;
+    for e in [EE::NotEnoughSamples, EE::IllConditioned, EE::InvalidL1Ratio(1.5), EE::InvalidPenalty(-1.0), EE::InvalidTolerance(-0.5), EE::BaseCrate(LE::Priors("q".into()))] {
+        dbg_only!("ElasticNetError", e);
+    }
+    use linfa_ftrl::FtrlError as FE;
+    for e in [FE::InvalidL1Ratio(1.5), FE::InvalidL2Ratio(-0.5), FE::InvalidAlpha(-1.0), FE::InvalidBeta(-2.0), FE::InvalidNFeatures(0), FE::LinfaError(LE::NotConverged("r".into()))] {
+        dbg_only!("FtrlError", e);
+    }
+    let _ = F::lit(0.0);
+}
+
+
+/// `linfa::Error` variants declared after the `#[serde(skip)]` variant `NdShape` (src/error.rs:27), alone
+/// and wrapped in the crates' own error enums
+fn error_after_skip<F: SS>(p: &Params) {
+    let mutate = setup(p);
+    use linfa::Error as LE;
+    macro_rules! msg {
+        ($tag:expr, $v:expr) => {{
+            let v = $v;
+            let r = roundtrip($tag, &v, true, mutate);
+            for (fmt, y) in r.each() {
+                check_bool(&format!("{}.{}: same Display", $tag, fmt), format!("{}", y) == format!("{}", v));
+            }
+        }};
+    }
+    msg!("linfa::Error::NotEnoughSamples (declared after the skipped variant)", LE::NotEnoughSamples);
+    msg!("linfa::Error::MismatchedShapes (declared after the skipped variant)", LE::MismatchedShapes(3, 4));
+    msg!("PlattError::LinfaError(NotEnoughSamples)", linfa::composing::platt_scaling::PlattError::LinfaError(LE::NotEnoughSamples));
+    msg!("ElasticNetError::BaseCrate(NotEnoughSamples)", linfa_elasticnet::ElasticNetError::BaseCrate(LE::NotEnoughSamples));
+    msg!("FtrlError::LinfaError(MismatchedShapes)", linfa_ftrl::FtrlError::LinfaError(LE::MismatchedShapes(1, 2)));
+    let _ = F::lit(0.0);
+}
+
+// ------------------------------------------------------------------------------------ parameter sets
+
+/// a hyper-parameter that makes `check()` go both ways: quarter steps in [-1/2, 1/2]
+fn hp<F: Scalar>(name: &str) -> F {
+    grid::<F>(name, 2, 2)
+}
+
+/// parameter sets with scalar fields: round trip, equality, accessors, `check()` verdict
+fn params<F: SS>(p: &Params) {
+    use linfa_nn::distance::{L1Dist, L2Dist, LpDist};
+    use linfa_nn::CommonNearestNeighbour;
+    let mutate = setup(p);
+    let which = p.u("which", 0);
+    match which {
+        0 => {
+            // k-means: unchecked and checked parameter set, symbolic tolerance and precomputed centroids
+            use linfa_clustering::{KMeans, KMeansInit};
+            let tol = hp::<F>("tolerance");
+            let c0 = sym_matrix::<F>("c", 2, 2, 8);
+            let prm = KMeans::<F, L1Dist>::params_with(p.u("k", 2), SerRng(7), L1Dist).tolerance(tol).n_runs(p.u("runs", 3)).max_n_iterations(p.get("iters", 5) as u64).init_method(KMeansInit::Precomputed(c0.clone()));
+            let r = roundtrip("KMeansParams", &prm, true, mutate);
+            for (fmt, y) in r.each() {
+                check_bool(&format!("KMeansParams.{}: restored == original", fmt), *y == prm);
+                check_bool(&format!("KMeansParams.{}: check() verdict unchanged", fmt), verdict(&y.check_ref()) == verdict(&prm.check_ref()));
+            }
+            if let Ok(valid) = prm.check() {
+                let r = roundtrip("KMeansValidParams", &valid, true, mutate);
+                for (fmt, y) in r.each() {
+                    check_bool(&format!("KMeansValidParams.{}: restored == original", fmt), *y == valid);
+                }
+            }
+            for init in [KMeansInit::Random, KMeansInit::KMeansPlusPlus, KMeansInit::KMeansPara, KMeansInit::Precomputed(c0.clone())] {
+                let r = roundtrip("KMeansInit", &init, true, mutate);
+                for (fmt, y) in r.each() {
+                    check_bool(&format!("KMeansInit.{}: restored == original", fmt), *y == init);
+                    if let (KMeansInit::Precomputed(a), KMeansInit::Precomputed(b)) = (y, &init) {
+                        check_bool(&format!("KMeansInit.{}: precomputed centroids identical", fmt), same2(a, b));
+                    }
+                }
+            }
+        }
+        1 => {
+            // DBSCAN (checked set only derives serde) and OPTICS (both)
+            use linfa_clustering::{Dbscan, Optics};
+            let tol = hp::<F>("tolerance");
+            if let Ok(valid) = Dbscan::params_with::<F, _, _>(p.u("mp", 3), LpDist(F::lit(3.0)), CommonNearestNeighbour::BallTree).tolerance(tol).check() {
+                let r = roundtrip("DbscanValidParams", &valid, true, mutate);
+                for (fmt, y) in r.each() {
+                    check_bool(&format!("DbscanValidParams.{}: restored == original", fmt), *y == valid);
+                    check_bool(&format!("DbscanValidParams.{}: accessors identical", fmt), same(y.tolerance(), valid.tolerance()) && y.minimum_points() == valid.minimum_points() && same(y.dist_fn().0, valid.dist_fn().0) && y.nn_algo() == valid.nn_algo());
+                }
+            }
+            let prm = Optics::params_with::<F, _, _>(p.u("mp", 3), L2Dist, CommonNearestNeighbour::LinearSearch).tolerance(tol);
+            let r = roundtrip("OpticsParams", &prm, true, mutate);
+            for (fmt, y) in r.each() {
+                check_bool(&format!("OpticsParams.{}: restored == original", fmt), *y == prm);
+                check_bool(&format!("OpticsParams.{}: check() verdict unchanged", fmt), verdict(&y.check_ref()) == verdict(&prm.check_ref()));
+            }
+            if let Ok(valid) = prm.check() {
+                let r = roundtrip("OpticsValidParams", &valid, true, mutate);
+                for (fmt, y) in r.each() {
+                    check_bool(&format!("OpticsValidParams.{}: restored == original", fmt), *y == valid);
+                    check_bool(&format!("OpticsValidParams.{}: accessors identical", fmt), same(y.tolerance(), valid.tolerance()) && y.minimum_points() == valid.minimum_points() && y.nn_algo() == valid.nn_algo());
+                }
+            }
+        }
+        2 => {
+            // Gaussian mixture parameters (the scalar fields are generic; the fit is not)
+            use linfa_clustering::{GaussianMixtureModel, GmmInitMethod};
+            let (tol, reg) = (hp::<F>("tolerance"), hp::<F>("reg_covar"));
+            let prm = GaussianMixtureModel::<F>::params_with_rng(p.u("k", 2), SerRng(3)).tolerance(tol).reg_covariance(reg).n_runs(p.get("runs", 2) as u64).max_n_iterations(p.get("iters", 7) as u64).init_method(GmmInitMethod::Random);
+            let r = roundtrip("GmmParams", &prm, true, mutate);
+            for (fmt, y) in r.each() {
+                check_bool(&format!("GmmParams.{}: restored == original", fmt), *y == prm);
+                check_bool(&format!("GmmParams.{}: check() verdict unchanged", fmt), verdict(&y.check_ref()) == verdict(&prm.check_ref()));
+            }
+            if let Ok(valid) = prm.check() {
+                let r = roundtrip("GmmValidParams", &valid, true, mutate);
+                for (fmt, y) in r.each() {
+                    check_bool(&format!("GmmValidParams.{}: restored == original", fmt), *y == valid);
+                    check_bool(&format!("GmmValidParams.{}: accessors identical", fmt), same(y.tolerance(), valid.tolerance()) && same(y.reg_covariance(), valid.reg_covariance()) && y.n_clusters() == valid.n_clusters() && y.n_runs() == valid.n_runs() && y.max_n_iterations() == valid.max_n_iterations() && y.init_method() == valid.init_method() && y.covariance_type() == valid.covariance_type() && y.rng() == valid.rng());
+                }
+            }
+        }
+        3 => {
+            // elastic net (single and multi task): only the checked sets derive serde
+            use linfa_elasticnet::{ElasticNet, MultiTaskElasticNet};
+            let (pen, l1, tol) = (hp::<F>("penalty"), hp::<F>("l1_ratio"), hp::<F>("tolerance"));
+            if let Ok(valid) = ElasticNet::<F>::params().penalty(pen).l1_ratio(l1).tolerance(tol).with_intercept(false).max_iterations(17).check() {
+                let r = roundtrip("ElasticNetValidParams", &valid, true, mutate);
+                for (fmt, y) in r.each() {
+                    check_bool(&format!("ElasticNetValidParams.{}: restored == original", fmt), *y == valid);
+                    check_bool(&format!("ElasticNetValidParams.{}: accessors identical", fmt), same(y.penalty(), valid.penalty()) && same(y.l1_ratio(), valid.l1_ratio()) && same(y.tolerance(), valid.tolerance()) && y.with_intercept() == valid.with_intercept() && y.max_iterations() == valid.max_iterations());
+                }
+            }
+            if let Ok(valid) = MultiTaskElasticNet::<F>::params().penalty(pen).l1_ratio(l1).tolerance(tol).check() {
+                let r = roundtrip("MultiTaskElasticNetValidParams", &valid, true, mutate);
+                for (fmt, y) in r.each() {
+                    check_bool(&format!("MultiTaskElasticNetValidParams.{}: restored == original", fmt), *y == valid);
+                    check_bool(&format!("MultiTaskElasticNetValidParams.{}: accessors identical", fmt), same(y.penalty(), valid.penalty()) && same(y.l1_ratio(), valid.l1_ratio()) && same(y.tolerance(), valid.tolerance()));
+                }
+            }
+        }
+        4 => {
+            // FTRL
+            use linfa_ftrl::Ftrl;
+            let (a, b, l1, l2) = (hp::<F>("alpha"), hp::<F>("beta"), hp::<F>("l1"), hp::<F>("l2"));
+            let prm = Ftrl::<F>::params_with_rng(SerRng(11)).alpha(a).beta(b).l1_ratio(l1).l2_ratio(l2);
+            let r = roundtrip("FtrlParams", &prm, true, mutate);
+            for (fmt, y) in r.each() {
+                check_bool(&format!("FtrlParams.{}: restored == original", fmt), *y == prm);
+                check_bool(&format!("FtrlParams.{}: check() verdict unchanged", fmt), verdict(&y.check_ref()) == verdict(&prm.check_ref()));
+            }
+            if let Ok(valid) = prm.check() {
+                let r = roundtrip("FtrlValidParams", &valid, true, mutate);
+                for (fmt, y) in r.each() {
+                    check_bool(&format!("FtrlValidParams.{}: restored == original", fmt), *y == valid);
+                    check_bool(&format!("FtrlValidParams.{}: accessors identical", fmt), same(y.alpha(), valid.alpha()) && same(y.beta(), valid.beta()) && same(y.l1_ratio(), valid.l1_ratio()) && same(y.l2_ratio(), valid.l2_ratio()) && y.rng() == valid.rng());
+                }
+            }
+        }
+        5 => {
+            // decision tree (unchecked and checked), naive Bayes (checked)
+            use linfa_bayes::{GaussianNb, MultinomialNb};
+            use linfa_trees::{DecisionTree, SplitQuality};
+            let imp = hp::<F>("min_impurity_decrease");
+            let prm = DecisionTree::<F, usize>::params().split_quality(SplitQuality::Entropy).max_depth(Some(p.u("depth", 3))).min_weight_split(p.get("mws", 4) as f32 / 2.0).min_weight_leaf(p.get("mwl", 2) as f32 / 2.0).min_impurity_decrease(imp);
+            let r = roundtrip("DecisionTreeParams", &prm, true, mutate);
+            for (fmt, y) in r.each() {
+                check_bool(&format!("DecisionTreeParams.{}: restored == original", fmt), *y == prm);
+                check_bool(&format!("DecisionTreeParams.{}: check() verdict unchanged", fmt), verdict(&y.check_ref()) == verdict(&prm.check_ref()));
+            }
+            if let Ok(valid) = prm.check() {
+                let r = roundtrip("DecisionTreeValidParams", &valid, true, mutate);
+                for (fmt, y) in r.each() {
+                    check_bool(&format!("DecisionTreeValidParams.{}: restored == original", fmt), *y == valid);
+                    check_bool(&format!("DecisionTreeValidParams.{}: accessors identical", fmt), same(y.min_impurity_decrease(), valid.min_impurity_decrease()) && y.split_quality() == valid.split_quality() && y.max_depth() == valid.max_depth() && y.min_weight_split().to_bits() == valid.min_weight_split().to_bits() && y.min_weight_leaf().to_bits() == valid.min_weight_leaf().to_bits());
+                }
+            }
+            let s = hp::<F>("smoothing");
+            if let Ok(valid) = GaussianNb::<F, usize>::params().var_smoothing(s).check() {
+                let r = roundtrip("GaussianNbValidParams", &valid, true, mutate);
+                for (fmt, y) in r.each() {
+                    check_bool(&format!("GaussianNbValidParams.{}: restored == original", fmt), *y == valid);
+                    check_bool(&format!("GaussianNbValidParams.{}: accessors identical", fmt), same(y.var_smoothing(), valid.var_smoothing()));
+                }
+            }
+            if let Ok(valid) = MultinomialNb::<F, usize>::params().alpha(s).check() {
+                let r = roundtrip("MultinomialNbValidParams", &valid, true, mutate);
+                for (fmt, y) in r.each() {
+                    check_bool(&format!("MultinomialNbValidParams.{}: restored == original", fmt), *y == valid);
+                    check_bool(&format!("MultinomialNbValidParams.{}: accessors identical", fmt), same(y.alpha(), valid.alpha()));
+                }
+            }
+        }
+        6 => {
+            // scalers, Tweedie parameters, kernel method, Minkowski metric
+            use linfa_kernel::KernelMethod;
+            use linfa_linear::{Link, TweedieRegressor};
+            use linfa_preprocessing::linear_scaling::{LinearScaler, LinearScalerParams, ScalingMethod};
+            let (lo, hi) = (hp::<F>("min"), hp::<F>("max"));
+            for m in [ScalingMethod::Standard(true, false), ScalingMethod::Standard(false, true), ScalingMethod::MinMax(lo, hi), ScalingMethod::MaxAbs] {
+                let r = roundtrip("ScalingMethod", &m, true, mutate);
+                for (fmt, y) in r.each() {
+                    check_bool(&format!("ScalingMethod.{}: restored == original", fmt), *y == m);
+                }
+                let prm = LinearScalerParams::new(m.clone());
+                let r = roundtrip("LinearScalerParams", &prm, true, mutate);
+                for (fmt, y) in r.each() {
+                    check_bool(&format!("LinearScalerParams.{}: restored == original", fmt), *y == prm);
+                }
+            }
+            let _ = LinearScaler::<F>::standard();
+            let (alpha, power, tol) = (hp::<F>("alpha"), hp::<F>("power"), hp::<F>("tol"));
+            for link in [None, Some(Link::Logit)] {
+                let mut prm = TweedieRegressor::<F>::params().alpha(alpha).power(power).tol(tol).fit_intercept(false).max_iter(9);
+                if let Some(l) = link {
+                    prm = prm.link(l);
+                }
+                if let Ok(valid) = prm.check() {
+                    let r = roundtrip("TweedieRegressorValidParams", &valid, true, mutate);
+                    for (fmt, y) in r.each() {
+                        check_bool(&format!("TweedieRegressorValidParams.{}: restored == original", fmt), *y == valid);
+                        check_bool(&format!("TweedieRegressorValidParams.{}: accessors identical", fmt), same(y.alpha(), valid.alpha()) && same(y.power(), valid.power()) && same(y.tol(), valid.tol()) && y.fit_intercept() == valid.fit_intercept() && y.max_iter() == valid.max_iter() && y.link() == valid.link());
+                    }
+                }
+            }
+            let (c, d) = (hp::<F>("c"), hp::<F>("degree"));
+            for m in [KernelMethod::Linear, KernelMethod::Gaussian(c), KernelMethod::Polynomial(c, d)] {
+                let r = roundtrip("KernelMethod", &m, true, mutate);
+                for (fmt, y) in r.each() {
+                    check_bool(&format!("KernelMethod.{}: restored == original", fmt), *y == m);
+                    let ok = match (y, &m) {
+                        (KernelMethod::Gaussian(a), KernelMethod::Gaussian(b)) => same(*a, *b),
+                        (KernelMethod::Polynomial(a, b), KernelMethod::Polynomial(c, d)) => same(*a, *c) && same(*b, *d),
+                        (KernelMethod::Linear, KernelMethod::Linear) => true,
+                        _ => false,
+                    };
+                    check_bool(&format!("KernelMethod.{}: constants identical", fmt), ok);
+                }
+            }
+            let lp = LpDist(d);
+            let r = roundtrip("LpDist", &lp, true, mutate);
+            for (fmt, y) in r.each() {
+                check_bool(&format!("LpDist.{}: restored == original", fmt), *y == lp);
+                check_bool(&format!("LpDist.{}: exponent identical", fmt), same(y.0, lp.0));
+            }
+        }
+        _ => {}
+    }
+}
+
+// --------------------------------------------------------------------------------------- fitted models
+
+/// p = 1 design that is not constant (with intercept) / not zero (without): the fits below divide by the
+/// column's (centred) norm
+fn assume_column_usable<F: Scalar>(x: &Array2<F>, icpt: bool) {
+    let n = x.nrows();
+
+    for j in 0..x.ncols() {
+        let mut any = vec![];
+        for i in 0..n {
+            if icpt {
+                for k in i + 1..n {
+                    any.push(x[(i, j)].s_eq(x[(k, j)]).not());
+                }
+            } else {
+                any.push(x[(i, j)].s_eq(F::lit(0.0)).not());
+            }
+        }
+        assume(SymB::any(&any));
+    }
+}
+
+/// k-means: model fitted from precomputed symbolic centroids (L1 metric), restored model and the model
+/// refitted from the restored parameter set
+fn kmeans<F: SS>(p: &Params) {
+    use linfa_clustering::{KMeans, KMeansInit};
+    use linfa_nn::distance::L1Dist;
+    let mutate = setup(p);
+    let (n, k, d, b) = (p.u("n", 3), p.u("k", 2), p.u("d", 1), p.get("B", 8));
+    let x = sym_matrix::<F>("x", n, d, b);
+    let c0 = sym_matrix::<F>("c", k, d, b);
+    let q = sym_matrix::<F>("q", 1, d, b);
+    let ds = DatasetBase::from(x.clone());
+    let valid = KMeans::<F, L1Dist>::params_with(k, SerRng(5), L1Dist)
+        .init_method(KMeansInit::Precomputed(c0.clone()))
+        .n_runs(1)
+        .max_n_iterations(p.get("iters", 1) as u64)
+        .tolerance(F::lit(9.094947017729282e-13))
+        .check()
+        .expect("valid k-means parameters");
+    let model = match valid.fit(&ds) {
+        Ok(m) => m,
+        Err(_) => return, // not converged within the budget: no model to serialise on this path
+    };
+    let want_label = model.predict(&q);
+    let want_dist = model.transform(&q);
+    let r = roundtrip("KMeans", &model, true, mutate);
+    for (fmt, y) in r.each() {
+        check_bool(&format!("KMeans.{}: restored == original", fmt), *y == model);
+        check_bool(&format!("KMeans.{}: centroids identical", fmt), same2(y.centroids(), model.centroids()));
+        check_bool(&format!("KMeans.{}: cluster_count identical", fmt), same1(y.cluster_count(), model.cluster_count()));
+        check_bool(&format!("KMeans.{}: inertia identical", fmt), same(y.inertia(), model.inertia()));
+        check_bool(&format!("KMeans.{}: predict on a fresh row unchanged", fmt), y.predict(&q) == want_label);
+        check_bool(&format!("KMeans.{}: transform (distance to the closest centroid) identical", fmt), same1(&y.transform(&q), &want_dist));
+    }
+    let rp = roundtrip("KMeansValidParams", &valid, true, mutate);
+    for (fmt, vp) in rp.each() {
+        match vp.fit(&ds) {
+            Ok(m2) => check_bool(&format!("KMeansValidParams.{}: refit gives the identical model", fmt), same2(m2.centroids(), model.centroids()) && same1(m2.cluster_count(), model.cluster_count()) && same(m2.inertia(), model.inertia())),
+            Err(_) => check_bool(&format!("KMeansValidParams.{}: refit gives the identical model", fmt), false),
+        }
+    }
+    observe_usize(want_label[0]);
+    observe(model.inertia());
+}
+
+/// ordinary least squares and elastic net (single task): coefficients, intercept, diagnostics, predictions
+fn linear<F: SS>(p: &Params) {
+    use linfa_elasticnet::ElasticNet;
+    use linfa_linear::LinearRegression;
+    let mutate = setup(p);
+    let (n, pp, b) = (p.u("n", 2), p.u("p", 1), p.get("B", 8));
+    let icpt = p.u("icpt", 1) == 1;
+    let x = design::<F>(p, n, pp, b);
+    let yv = sym_vector::<F>("y", n, b);
+    let q = sym_matrix::<F>("q", 1, pp, b);
+    if p.u("xconst", 0) == 0 {
+        assume_column_usable(&x, icpt);
+    }
+    let ds = Dataset::new(x.clone(), yv.clone());
+    if p.u("which", 0) == 0 {
+        let prm = LinearRegression::new().with_intercept(icpt);
+        let model = match prm.fit(&ds) {
+            Ok(m) => m,
+            Err(_) => return,
+        };
+        let want = model.predict(&q);
+        let r = roundtrip("FittedLinearRegression", &model, true, mutate);
+        for (fmt, y) in r.each() {
+            check_bool(&format!("FittedLinearRegression.{}: restored == original", fmt), *y == model);
+            check_bool(&format!("FittedLinearRegression.{}: params identical", fmt), same1(y.params(), model.params()));
+            check_bool(&format!("FittedLinearRegression.{}: intercept identical", fmt), same(y.intercept(), model.intercept()));
+            check_bool(&format!("FittedLinearRegression.{}: prediction on a fresh row identical", fmt), same1(&y.predict(&q), &want));
+        }
+        let rp = roundtrip("LinearRegression", &prm, true, mutate);
+        for (fmt, pr2) in rp.each() {
+            let ok = match pr2.fit(&ds) {
+                Ok(m2) => same1(m2.params(), model.params()) && same(m2.intercept(), model.intercept()),
+                Err(_) => false,
+            };
+            check_bool(&format!("LinearRegression.{}: refit gives the identical model", fmt), ok);
+        }
+        observe(want[0]);
+    } else {
+        let valid = ElasticNet::<F>::params()
+            .penalty(F::lit(p.get("pen", 1) as f64 / 8.0))
+            .l1_ratio(F::lit(p.get("l1", 2) as f64 / 4.0))
+            .with_intercept(icpt)
+            .max_iterations(p.get("iters", 2) as u32)
+            .tolerance(F::lit(0.0009765625))
+            .check()
+            .expect("valid elastic net parameters");
+        let model = match valid.fit(&ds) {
+            Ok(m) => m,
+            Err(_) => return,
+        };
+        let want = model.predict(&q);
+        let r = roundtrip("ElasticNet", &model, true, mutate);
+        for (fmt, y) in r.each() {
+            check_bool(&format!("ElasticNet.{}: hyperplane identical", fmt), same1(y.hyperplane(), model.hyperplane()));
+            check_bool(&format!("ElasticNet.{}: intercept identical", fmt), same(y.intercept(), model.intercept()));
+            check_bool(&format!("ElasticNet.{}: duality gap identical", fmt), same(y.duality_gap(), model.duality_gap()));
+            check_bool(&format!("ElasticNet.{}: n_steps unchanged", fmt), y.n_steps() == model.n_steps());
+            let zs = match (y.z_score(), model.z_score()) {
+                (Ok(a), Ok(b)) => same1(&a, &b),
+                (Err(a), Err(b)) => a.to_string() == b.to_string(),
+                _ => false,
+            };
+            check_bool(&format!("ElasticNet.{}: z_score (variance estimate or its error) unchanged", fmt), zs);
+            check_bool(&format!("ElasticNet.{}: prediction on a fresh row identical", fmt), same1(&y.predict(&q), &want));
+        }
+        let rp = roundtrip("ElasticNetValidParams", &valid, true, mutate);
+        for (fmt, vp) in rp.each() {
+            let ok = match vp.fit(&ds) {
+                Ok(m2) => same1(m2.hyperplane(), model.hyperplane()) && same(m2.intercept(), model.intercept()) && same(m2.duality_gap(), model.duality_gap()) && m2.n_steps() == model.n_steps(),
+                Err(_) => false,
+            };
+            check_bool(&format!("ElasticNetValidParams.{}: refit gives the identical model", fmt), ok);
+        }
+        observe(want[0]);
+    }
+}
+
+/// multi-task elastic net
+fn multitask<F: SS>(p: &Params) {
+    use linfa_elasticnet::MultiTaskElasticNet;
+    let mutate = setup(p);
+    let (n, pp, t, b) = (p.u("n", 2), p.u("p", 1), p.u("t", 2), p.get("B", 8));
+    let icpt = p.u("icpt", 1) == 1;
+    let x = design::<F>(p, n, pp, b);
+    let y = sym_matrix::<F>("y", n, t, b);
+    let q = sym_matrix::<F>("q", 1, pp, b);
+    if p.u("xconst", 0) == 0 {
+        assume_column_usable(&x, icpt);
+    }
+    let ds = Dataset::new(x.clone(), y.clone());
+    let valid = MultiTaskElasticNet::<F>::params()
+        .penalty(F::lit(p.get("pen", 1) as f64 / 8.0))
+        .l1_ratio(F::lit(p.get("l1", 2) as f64 / 4.0))
+        .with_intercept(icpt)
+        .max_iterations(p.get("iters", 1) as u32)
+        .tolerance(F::lit(0.0009765625))
+        .check()
+        .expect("valid parameters");
+    let model = match valid.fit(&ds) {
+        Ok(m) => m,
+        Err(_) => return,
+    };
+    let want = model.predict(&q);
+    let r = roundtrip("MultiTaskElasticNet", &model, true, mutate);
+    for (fmt, m2) in r.each() {
+        check_bool(&format!("MultiTaskElasticNet.{}: hyperplane identical", fmt), same2(m2.hyperplane(), model.hyperplane()));
+        check_bool(&format!("MultiTaskElasticNet.{}: intercept identical", fmt), same1(m2.intercept(), model.intercept()));
+        check_bool(&format!("MultiTaskElasticNet.{}: duality gap identical", fmt), same(m2.duality_gap(), model.duality_gap()));
+        check_bool(&format!("MultiTaskElasticNet.{}: n_steps unchanged", fmt), m2.n_steps() == model.n_steps());
+        let zs = match (m2.z_score(), model.z_score()) {
+            (Ok(a), Ok(b)) => same2(&a, &b),
+            (Err(a), Err(b)) => a.to_string() == b.to_string(),
+            _ => false,
+        };
+        check_bool(&format!("MultiTaskElasticNet.{}: z_score (variance estimate or its error) unchanged", fmt), zs);
+        check_bool(&format!("MultiTaskElasticNet.{}: prediction on a fresh row identical", fmt), same2(&m2.predict(&q), &want));
+    }
+    observe(want[(0, 0)]);
+}
+
+/// linear scalers (every method) and norm scalers: learned offsets / scales, transform of a fresh row
+fn scaler<F: SS>(p: &Params) {
+    use linfa_preprocessing::linear_scaling::{LinearScaler, LinearScalerParams, ScalingMethod};
+    use linfa_preprocessing::norm_scaling::NormScaler;
+    let mutate = setup(p);
+    let (n, d, b) = (p.u("n", 2), p.u("d", 1), p.get("B", 8));
+    let x = sym_matrix::<F>("x", n, d, b);
+    let q = sym_matrix::<F>("q", 1, d, b);
+    let ds = DatasetBase::from(x.clone());
+    let which = p.u("which", 0);
+    if which <= 5 {
+        let method = match which {
+            0 => ScalingMethod::Standard(true, true),
+            1 => ScalingMethod::Standard(false, true),
+            2 => ScalingMethod::Standard(true, false),
+            3 => ScalingMethod::MinMax(F::lit(0.0), F::lit(1.0)),
+            4 => ScalingMethod::MinMax(int::<F>("lo", -4, 4), int::<F>("hi", -4, 4)),
+            _ => ScalingMethod::MaxAbs,
+        };
+        let prm = LinearScalerParams::new(method);
+        let model: LinearScaler<F> = match prm.fit(&ds) {
+            Ok(m) => m,
+            Err(_) => return,
+        };
+        let want = model.transform(q.clone());
+        let r = roundtrip("LinearScaler", &model, true, mutate);
+        for (fmt, y) in r.each() {
+            check_bool(&format!("LinearScaler.{}: restored == original", fmt), *y == model);
+            check_bool(&format!("LinearScaler.{}: offsets identical", fmt), same1(y.offsets(), model.offsets()));
+            check_bool(&format!("LinearScaler.{}: scales identical", fmt), same1(y.scales(), model.scales()));
+            check_bool(&format!("LinearScaler.{}: method unchanged", fmt), y.method() == model.method());
+            check_bool(&format!("LinearScaler.{}: transform of a fresh row identical", fmt), same2(&y.transform(q.clone()), &want));
+        }
+        let rp = roundtrip("LinearScalerParams", &prm, true, mutate);
+        for (fmt, pr2) in rp.each() {
+            let ok = match pr2.fit(&ds) {
+                Ok(m2) => same1(m2.offsets(), model.offsets()) && same1(m2.scales(), model.scales()),
+                Err(_) => false,
+            };
+            check_bool(&format!("LinearScalerParams.{}: refit gives the identical scaler", fmt), ok);
+        }
+        observe(want[(0, 0)]);
+    } else {
+        let ns = match which {
+            6 => NormScaler::l1(),
+            7 => NormScaler::l2(),
+            _ => NormScaler::max(),
+        };
+        // a zero row has norm zero: excluded (the scaler divides by the norm)
+        assume(SymB::any(&q.iter().map(|v| v.s_eq(F::lit(0.0)).not()).collect::<Vec<_>>()));
+        let want: Array2<F> = ns.transform(q.clone());
+        let r = roundtrip("NormScaler", &ns, true, mutate);
+        for (fmt, y) in r.each() {
+            let got: Array2<F> = y.transform(q.clone());
+            check_bool(&format!("NormScaler.{}: transform of a fresh row identical", fmt), same2(&got, &want));
+        }
+        observe(want[(0, 0)]);
+    }
+}
+
+/// FTRL: state after one `update` on symbolic features with given probabilities
+fn ftrl<F: SS>(p: &Params) {
+    use linfa_ftrl::Ftrl;
+    let mutate = setup(p);
+    let (n, d, b) = (p.u("n", 1), p.u("d", 1), p.get("B", 8));
+    let x = sym_matrix::<F>("x", n, d, b);
+    let labels: Vec<bool> = (0..n).map(|i| p.u("labels", 1) >> i & 1 == 1).collect();
+    let ds = DatasetBase::new(x.clone(), Array1::from(labels));
+    let valid = Ftrl::<F>::params_with_rng(SerRng(9)).alpha(F::lit(0.5)).beta(F::lit(1.0)).l1_ratio(F::lit(0.25)).l2_ratio(F::lit(0.5)).check().expect("valid ftrl parameters");
+    let mut model = Ftrl::new(valid.clone(), d);
+    let probs: Array1<Pr> = (0..n).map(|i| Pr::new(if i % 2 == 0 { 0.25 } else { 0.75 })).collect();
+    for _ in 0..p.u("steps", 1) {
+        model.update(&ds, probs.view());
+    }
+    let want = model.get_weights();
+    let r = roundtrip("Ftrl", &model, true, mutate);
+    for (fmt, y) in r.each() {
+        check_bool(&format!("Ftrl.{}: z identical", fmt), same1(y.z(), model.z()));
+        check_bool(&format!("Ftrl.{}: n identical", fmt), same1(y.n(), model.n()));
+        check_bool(&format!("Ftrl.{}: alpha, beta, l1, l2 identical", fmt), same(y.alpha(), model.alpha()) && same(y.beta(), model.beta()) && same(y.l1_ratio(), model.l1_ratio()) && same(y.l2_ratio(), model.l2_ratio()));
+        check_bool(&format!("Ftrl.{}: weights identical", fmt), same1(&y.get_weights(), &want));
+        // one more update from the restored state gives the same state as from the original
+        let (mut a, mut b2) = (y.clone(), model.clone());
+        a.update(&ds, probs.view());
+        b2.update(&ds, probs.view());
+        check_bool(&format!("Ftrl.{}: the next update gives the identical state", fmt), same1(a.z(), b2.z()) && same1(a.n(), b2.n()));
+    }
+    let rp = roundtrip("FtrlValidParams", &valid, true, mutate);
+    for (fmt, vp) in rp.each() {
+        let m2 = Ftrl::new(vp.clone(), d);
+        let m1 = Ftrl::new(valid.clone(), d);
+        check_bool(&format!("FtrlValidParams.{}: a model initialised from the restored set is identical", fmt), same1(m2.z(), m1.z()) && same1(m2.n(), m1.n()) && same(m2.alpha(), m1.alpha()));
+    }
+    for w in want.iter() {
+        observe(*w);
+    }
+}
+
+/// OPTICS analysis on symbolic 1-D points
+fn optics<F: SS>(p: &Params) {
+    use linfa_clustering::Optics;
+    use linfa_nn::distance::L1Dist;
+    use linfa_nn::CommonNearestNeighbour;
+    let mutate = setup(p);
+    let (n, d, b) = (p.u("n", 3), p.u("d", 1), p.get("B", 8));
+    let x = sym_matrix::<F>("x", n, d, b);
+    let tol = int::<F>("tolerance", 1, 2 * b);
+    let valid = Optics::params_with::<F, _, _>(p.u("mp", 2), L1Dist, CommonNearestNeighbour::LinearSearch).tolerance(tol).check().expect("valid optics parameters");
+    let analysis = valid.transform(x.view());
+    let r = roundtrip("OpticsAnalysis", &analysis, true, mutate);
+    for (fmt, y) in r.each() {
+        check_bool(&format!("OpticsAnalysis.{}: same number of samples", fmt), y.as_slice().len() == analysis.as_slice().len());
+        let ok = y.iter().zip(analysis.iter()).all(|(a, b)| a.index() == b.index() && same_opt(a.core_distance(), b.core_distance()) && same_opt(a.reachability_distance(), b.reachability_distance()));
+        check_bool(&format!("OpticsAnalysis.{}: order, core and reachability distances identical", fmt), ok);
+    }
+    let rp = roundtrip("OpticsValidParams", &valid, true, mutate);
+    for (fmt, vp) in rp.each() {
+        let a2 = vp.transform(x.view());
+        let ok = a2.as_slice().len() == analysis.as_slice().len() && a2.iter().zip(analysis.iter()).all(|(a, b)| a.index() == b.index() && same_opt(a.core_distance(), b.core_distance()) && same_opt(a.reachability_distance(), b.reachability_distance()));
+        check_bool(&format!("OpticsValidParams.{}: the restored set gives the identical analysis", fmt), ok);
+    }
+    for s in analysis.iter() {
+        observe_usize(s.index());
+    }
+}
+
+/// JSON documents of two values are equal (object members compare independently of their order, so this
+/// also applies to models that keep their classes in a `HashMap`)
+fn same_document<T: Serialize>(a: &T, b: &T) -> bool {
+    match (serde_json::to_value(a), serde_json::to_value(b)) {
+        (Ok(x), Ok(y)) => x == y,
+        _ => false,
+    }
+}
+
+/// decision tree fitted on symbolic features: every node compared (split, impurity decrease, prediction,
+/// depth, feature name), importances, predictions on a fresh row
+fn tree<F: SS>(p: &Params) {
+    use linfa_trees::{DecisionTree, SplitQuality, TreeNode};
+    let mutate = setup(p);
+    let (n, d, b) = (p.u("n", 3), p.u("d", 1), p.get("B", 8));
+    let x = sym_matrix::<F>("x", n, d, b);
+    let q = sym_matrix::<F>("q", 1, d, b);
+    let labels: Vec<usize> = (0..n).map(|i| p.u("labels", 0b010) >> i & 1).collect();
+    let ds = DatasetBase::new(x.clone(), Array1::from(labels)).with_feature_names((0..d).map(|j| format!("f{}", j)).collect::<Vec<_>>());
+    let prm = DecisionTree::<F, usize>::params()
+        .split_quality(if p.u("crit", 0) == 0 { SplitQuality::Gini } else { SplitQuality::Entropy })
+        .max_depth(Some(p.u("depth", 2)))
+        .min_impurity_decrease(F::lit(0.0009765625));
+    let model = match prm.fit(&ds) {
+        Ok(m) => m,
+        Err(_) => return,
+    };
+    fn same_node<F: Scalar>(a: &TreeNode<F, usize>, b: &TreeNode<F, usize>) -> bool {
+        let (sa, sb) = (a.split(), b.split());
+        let here = a.is_leaf() == b.is_leaf() && a.depth() == b.depth() && a.prediction() == b.prediction() && a.feature_name() == b.feature_name() && sa.0 == sb.0 && sa.1.identical(sb.1) && sa.2.identical(sb.2);
+        let (ca, cb) = (a.children(), b.children());
+        here && ca.len() == cb.len() && ca.iter().zip(cb.iter()).all(|(x, y)| match (x, y) {
+            (Some(x), Some(y)) => same_node(x, y),
+            (None, None) => true,
+            _ => false,
+        })
+    }
+    let want = model.predict(&q);
+    let r = roundtrip("DecisionTree", &model, true, mutate);
+    for (fmt, y) in r.each() {
+        check_bool(&format!("DecisionTree.{}: restored == original", fmt), *y == model);
+        check_bool(&format!("DecisionTree.{}: every node identical (split feature, value, impurity decrease, prediction, depth, feature name, children)", fmt), same_node(y.root_node(), model.root_node()));
+        // features() collects a HashSet: its order is arbitrary, the set is compared
+        let sorted = |mut v: Vec<usize>| {
+            v.sort();
+            v
+        };
+        check_bool(&format!("DecisionTree.{}: depth, leaves and the set of used features unchanged", fmt), y.max_depth() == model.max_depth() && y.num_leaves() == model.num_leaves() && sorted(y.features()) == sorted(model.features()));
+        let (ia, ib) = (y.feature_importance(), model.feature_importance());
+        check_bool(&format!("DecisionTree.{}: feature importance identical", fmt), ia.len() == ib.len() && ia.iter().zip(ib.iter()).all(|(a, b)| a.identical(*b)));
+        check_bool(&format!("DecisionTree.{}: prediction on a fresh row unchanged", fmt), y.predict(&q) == want);
+    }
+    let rp = roundtrip("DecisionTreeParams", &prm, true, mutate);
+    for (fmt, pr2) in rp.each() {
+        let ok = match pr2.fit(&ds) {
+            Ok(m2) => same_node(m2.root_node(), model.root_node()),
+            Err(_) => false,
+        };
+        check_bool(&format!("DecisionTreeParams.{}: refit gives the identical tree", fmt), ok);
+    }
+    observe_usize(want[0]);
+}
+
+/// Gaussian (which=0) and multinomial (which=1) naive Bayes fitted on symbolic features
+fn bayes<F: SS>(p: &Params) {
+    use linfa_bayes::{GaussianNb, MultinomialNb};
+    let mutate = setup(p);
+    let (n, d, b) = (p.u("n", 2), p.u("d", 1), p.get("B", 8));
+    let labels: Vec<usize> = (0..n).map(|i| p.u("labels", 0b10) >> i & 1).collect();
+    if p.u("which", 0) == 0 {
+        let x = sym_matrix::<F>("x", n, d, b);
+        let q = sym_matrix::<F>("q", 1, d, b);
+        let ds = DatasetBase::new(x.clone(), Array1::from(labels));
+        // a feature that is constant over the whole data has variance zero in every class even after smoothing
+        // (smoothing is a fraction of the largest feature variance): the model then takes ln(0); excluded
+        for j in 0..d {
+            let mut differ = vec![];
+            for i in 1..n {
+                differ.push(x[(0, j)].s_eq(x[(i, j)]).not());
+            }
+            assume(SymB::any(&differ));
+        }
+        let valid = GaussianNb::<F, usize>::params().var_smoothing(F::lit(0.0625)).check().expect("valid parameters");
+        let model = match valid.fit(&ds) {
+            Ok(m) => m,
+            Err(_) => return,
+        };
+        let want = model.predict(&q);
+        let r = roundtrip("GaussianNb", &model, false, mutate);
+        for (fmt, y) in r.each() {
+            check_bool(&format!("GaussianNb.{}: restored == original", fmt), *y == model);
+            check_bool(&format!("GaussianNb.{}: same document (class counts, priors, theta, sigma per class)", fmt), same_document(y, &model));
+            check_bool(&format!("GaussianNb.{}: prediction on a fresh row unchanged", fmt), y.predict(&q) == want);
+        }
+        let rp = roundtrip("GaussianNbValidParams", &valid, true, mutate);
+        for (fmt, vp) in rp.each() {
+            let ok = match vp.fit(&ds) {
+                Ok(m2) => same_document(&m2, &model),
+                Err(_) => false,
+            };
+            check_bool(&format!("GaussianNbValidParams.{}: refit gives the identical model", fmt), ok);
+        }
+        observe_usize(want[0]);
+    } else {
+        // counts: non-negative integers
+        let mut x = Array2::from_elem((n, d), F::lit(0.0));
+        for i in 0..n {
+            for j in 0..d {
+                x[(i, j)] = int::<F>(&format!("x{}_{}", i, j), 0, b);
+            }
+        }
+        let mut q = Array2::from_elem((1, d), F::lit(0.0));
+        for j in 0..d {
+            q[(0, j)] = int::<F>(&format!("q{}", j), 0, b);
+        }
+        let ds = DatasetBase::new(x.clone(), Array1::from(labels));
+        let valid = MultinomialNb::<F, usize>::params().alpha(F::lit(1.0)).check().expect("valid parameters");
+        let model = match valid.fit(&ds) {
+            Ok(m) => m,
+            Err(_) => return,
+        };
+        let want = model.predict(&q);
+        let r = roundtrip("MultinomialNb", &model, false, mutate);
+        for (fmt, y) in r.each() {
+            check_bool(&format!("MultinomialNb.{}: restored == original", fmt), *y == model);
+            check_bool(&format!("MultinomialNb.{}: same document (class counts, priors, feature counts, feature log probabilities per class)", fmt), same_document(y, &model));
+            check_bool(&format!("MultinomialNb.{}: prediction on a fresh row unchanged", fmt), y.predict(&q) == want);
+        }
+        let rp = roundtrip("MultinomialNbValidParams", &valid, true, mutate);
+        for (fmt, vp) in rp.each() {
+            let ok = match vp.fit(&ds) {
+                Ok(m2) => same_document(&m2, &model),
+                Err(_) => false,
+            };
+            check_bool(&format!("MultinomialNbValidParams.{}: refit gives the identical model", fmt), ok);
+        }
+        observe_usize(want[0]);
+    }
+}
+
+/// support vector classification on dyadic points with symbolic class weights (linear kernel: explicit
+/// hyperplane; polynomial kernel: support vectors) and epsilon-regression
+fn svm<F: SS>(p: &Params) {
+    use linfa_svm::Svm;
+    let mutate = setup(p);
+    let n = p.u("n", 3);
+    let pts = [0.0, 1.0, 2.0, 4.0];
+    let mut x = Array2::from_elem((n, 1), F::lit(0.0));
+    for i in 0..n {
+        x[(i, 0)] = F::lit(pts[i % 4]);
+    }
+    let q = Array1::from_elem(1, int::<F>("q", -8, 8));
+    let q2 = q.clone().insert_axis(ndarray::Axis(0));
+    let kind = p.u("kern", 0);
+    if p.u("which", 0) == 0 {
+        let y: Vec<bool> = (0..n).map(|i| p.u("pat", 0b101) >> i & 1 == 1).collect();
+        let (cp, cn) = (F::input("cpos", 1, 32, 2), F::input("cneg", 1, 32, 2));
+        let ds = DatasetBase::new(x.clone(), Array1::from_vec(y));
+        let prm = Svm::<F, bool>::params().pos_neg_weights(cp, cn).eps(F::lit(0.0625)).shrinking(false);
+        let prm = if kind == 2 { prm.polynomial_kernel(F::lit(1.0), F::lit(2.0)) } else { prm.linear_kernel() };
+        let model = match prm.fit(&ds) {
+            Ok(m) => m,
+            Err(_) => return,
+        };
+        let want_sum = model.weighted_sum(&q);
+        let want_label = model.predict(&q2);
+        let r = roundtrip("Svm<bool>", &model, true, mutate);
+        for (fmt, m2) in r.each() {
+            check_bool(&format!("Svm.{}: restored == original", fmt), *m2 == model);
+            check_bool(&format!("Svm.{}: alpha and rho identical", fmt), m2.alpha.len() == model.alpha.len() && m2.alpha.iter().zip(model.alpha.iter()).all(|(a, b)| a.identical(*b)) && same(m2.rho, model.rho));
+            check_bool(&format!("Svm.{}: nsupport unchanged", fmt), m2.nsupport() == model.nsupport());
+            check_bool(&format!("Svm.{}: Display (exit reason, iterations, objective) unchanged", fmt), format!("{}", m2) == format!("{}", model));
+            check_bool(&format!("Svm.{}: decision value of a fresh row identical", fmt), same(m2.weighted_sum(&q), want_sum));
+            check_bool(&format!("Svm.{}: predicted label of a fresh row unchanged", fmt), m2.predict(&q2) == want_label);
+        }
+        observe(want_sum);
+    } else {
+        // epsilon-regression is implemented for f32 / f64 only: concrete execution
+        let xf = ndarray::array![[0.0f64], [1.0], [2.0], [4.0]];
+        let ds = DatasetBase::new(xf, ndarray::array![1.0f64, 2.0, 2.5, 5.0]);
+        let prm = Svm::<f64, f64>::params().c_svr(1.0, Some(0.25)).eps(0.0625).shrinking(false).linear_kernel();
+        let model = match prm.fit(&ds) {
+            Ok(m) => m,
+            Err(_) => return,
+        };
+        let qf = ndarray::array![[3.0f64], [-1.5]];
+        let want = model.predict(&qf);
+        let r = roundtrip("Svm<f64,f64>", &model, true, mutate);
+        for (fmt, m2) in r.each() {
+            check_bool(&format!("Svm(regression, f64).{}: restored == original", fmt), *m2 == model);
+            check_bool(&format!("Svm(regression, f64).{}: alpha and rho bit-identical", fmt), m2.alpha.len() == model.alpha.len() && m2.alpha.iter().zip(model.alpha.iter()).all(|(a, b)| a.to_bits() == b.to_bits()) && m2.rho.to_bits() == model.rho.to_bits());
+            check_bool(&format!("Svm(regression, f64).{}: Display unchanged", fmt), format!("{}", m2) == format!("{}", model));
+            let got = m2.predict(&qf);
+            check_bool(&format!("Svm(regression, f64).{}: predictions of fresh rows bit-identical", fmt), got.len() == want.len() && got.iter().zip(want.iter()).all(|(a, b)| a.to_bits() == b.to_bits()));
+        }
+        let _ = q2;
+    }
+}
+
+/// the Tweedie GLM model type with symbolic coefficients for every link.  Its fit and its predict are not
+/// generic (`linfa_linear::Float` = f32 / f64), so the value is built through the type's own deserialiser
+/// and only the generic part (the serde derive, `==`, the public fields) runs on the symbolic scalar; the
+/// real fit and the predictions are in `c19.concrete which=3`.
+fn glm<F: SS>(p: &Params) {
+    use linfa_linear::TweedieRegressor;
+    let mutate = setup(p);
+    let (d, b) = (p.u("d", 2), p.get("B", 8));
+    let coef = sym_vector::<F>("w", d, b);
+    let icpt = int::<F>("b", -b, b);
+    for link in ["Identity", "Log", "Logit"] {
+        let doc = serde_json::json!({"coef": serde_json::to_value(&coef).unwrap(), "intercept": serde_json::to_value(icpt).unwrap(), "link": link});
+        let model: TweedieRegressor<F> = serde_json::from_value(doc).expect("TweedieRegressor from its document");
+        let r = roundtrip("TweedieRegressor", &model, true, mutate);
+        for (fmt, y) in r.each() {
+            check_bool(&format!("TweedieRegressor.{}: restored == original", fmt), *y == model);
+            check_bool(&format!("TweedieRegressor.{}: coefficients and intercept identical", fmt), same1(&y.coef, &model.coef) && same(y.intercept, model.intercept));
+            check_bool(&format!("TweedieRegressor.{}: same document (link unchanged)", fmt), same_document(y, &model));
+        }
+    }
+}
+
+/// Non-generic fits, run with plain f64 on constant data: these obligations are concrete executions, not
+/// solver-decided.  which = 0 logistic regression (binary and multinomial), 1 Gaussian mixture, 2 whitening
+/// (PCA / ZCA / Cholesky), 3 Tweedie regressor, 4 logistic-regression parameter sets, 5 isotonic regression, 6 count vectoriser, 7 tf-idf vectoriser.
+fn concrete<F: SS>(p: &Params) {
+    let mutate = setup(p);
+    let bits1 = |a: &Array1<f64>, b: &Array1<f64>| a.len() == b.len() && a.iter().zip(b.iter()).all(|(x, y)| x.to_bits() == y.to_bits());
+    let bits2 = |a: &Array2<f64>, b: &Array2<f64>| a.dim() == b.dim() && a.iter().zip(b.iter()).all(|(x, y)| x.to_bits() == y.to_bits());
+    let x = ndarray::array![[1.0f64, 2.0], [2.0, 1.5], [3.0, 4.5], [4.0, 3.0], [5.5, 6.0], [6.0, 5.0]];
+    let q = ndarray::array![[2.5f64, 3.5], [5.0, 1.0]];
+    match p.u("which", 0) {
+        0 => {
+            use linfa_logistic::{LogisticRegression, MultiLogisticRegression};
+            let ds = Dataset::new(x.clone(), ndarray::array![0usize, 0, 0, 1, 1, 1]);
+            let model = LogisticRegression::default().max_iterations(20).fit(&ds).expect("logistic fit");
+            let want = model.predict_probabilities(&q);
+            let r = roundtrip("FittedLogisticRegression", &model, true, mutate);
+            for (fmt, y) in r.each() {
+                check_bool(&format!("FittedLogisticRegression.{}: restored == original", fmt), *y == model);
+                check_bool(&format!("FittedLogisticRegression.{}: params and intercept bit-identical", fmt), bits1(y.params(), model.params()) && y.intercept().to_bits() == model.intercept().to_bits());
+                check_bool(&format!("FittedLogisticRegression.{}: class labels unchanged", fmt), y.labels() == model.labels());
+                check_bool(&format!("FittedLogisticRegression.{}: probabilities and labels of fresh rows bit-identical", fmt), bits1(&y.predict_probabilities(&q), &want) && y.predict(&q) == model.predict(&q));
+            }
+            let ds3 = Dataset::new(x.clone(), ndarray::array![0usize, 0, 1, 1, 2, 2]);
+            let model = MultiLogisticRegression::default().max_iterations(20).fit(&ds3).expect("multinomial logistic fit");
+            let want = model.predict_probabilities(&q);
+            let r = roundtrip("MultiFittedLogisticRegression", &model, true, mutate);
+            for (fmt, y) in r.each() {
+                check_bool(&format!("MultiFittedLogisticRegression.{}: restored == original", fmt), *y == model);
+                check_bool(&format!("MultiFittedLogisticRegression.{}: params, intercept and classes unchanged", fmt), bits2(y.params(), model.params()) && bits1(y.intercept(), model.intercept()) && y.classes() == model.classes());
+                check_bool(&format!("MultiFittedLogisticRegression.{}: probabilities and labels of fresh rows bit-identical", fmt), bits2(&y.predict_probabilities(&q), &want) && y.predict(&q) == model.predict(&q));
+            }
+        }
+        1 => {
+            use linfa_clustering::GaussianMixtureModel;
+            let ds = DatasetBase::from(x.clone());
+            let model = GaussianMixtureModel::params_with_rng(2, SerRng(1)).n_runs(1).max_n_iterations(10).fit(&ds).expect("gmm fit");
+            let r = roundtrip("GaussianMixtureModel", &model, true, mutate);
+            for (fmt, y) in r.each() {
+                check_bool(&format!("GaussianMixtureModel.{}: restored == original", fmt), *y == model);
+                let arr3 = |a: &ndarray::Array3<f64>, b: &ndarray::Array3<f64>| a.dim() == b.dim() && a.iter().zip(b.iter()).all(|(x, y)| x.to_bits() == y.to_bits());
+                check_bool(&format!("GaussianMixtureModel.{}: weights, means, covariances, precisions bit-identical", fmt), bits1(y.weights(), model.weights()) && bits2(y.means(), model.means()) && arr3(y.covariances(), model.covariances()) && arr3(y.precisions(), model.precisions()));
+                check_bool(&format!("GaussianMixtureModel.{}: responsibilities and labels of fresh rows bit-identical", fmt), bits2(&y.predict_proba(&q), &model.predict_proba(&q)) && y.predict(&q) == model.predict(&q));
+            }
+        }
+        2 => {
+            use linfa_preprocessing::whitening::Whitener;
+            let ds = DatasetBase::from(x.clone());
+            for (name, w) in [("pca", Whitener::pca()), ("zca", Whitener::zca()), ("cholesky", Whitener::cholesky())] {
+                let model = w.fit(&ds).expect("whitener fit");
+                let want = model.transform(q.clone());
+                let r = roundtrip(&format!("FittedWhitener({})", name), &model, true, mutate);
+                for (fmt, y) in r.each() {
+                    check_bool(&format!("FittedWhitener.{}: restored == original", fmt), *y == model);
+                    check_bool(&format!("FittedWhitener.{}: transformation matrix and mean bit-identical", fmt), bits2(&y.transformation_matrix().to_owned(), &model.transformation_matrix().to_owned()) && bits1(&y.mean().to_owned(), &model.mean().to_owned()));
+                    check_bool(&format!("FittedWhitener.{}: transform of fresh rows bit-identical", fmt), bits2(&y.transform(q.clone()), &want));
+                }
+                let rp = roundtrip("Whitener", &w, true, mutate);
+                for (fmt, w2) in rp.each() {
+                    let ok = match w2.fit(&ds) {
+                        Ok(m2) => bits2(&m2.transformation_matrix().to_owned(), &model.transformation_matrix().to_owned()),
+                        Err(_) => false,
+                    };
+                    check_bool(&format!("Whitener.{}: refit gives the identical whitener", fmt), ok);
+                }
+            }
+        }
+        3 => {
+            use linfa_linear::TweedieRegressor;
+            let ds = Dataset::new(x.clone(), ndarray::array![1.0f64, 1.5, 3.0, 2.5, 5.0, 4.5]);
+            let valid = TweedieRegressor::params().power(1.0).alpha(0.5).max_iter(30).check().expect("valid parameters");
+            let model = valid.fit(&ds).expect("tweedie fit");
+            let want = model.predict(&q);
+            let r = roundtrip("TweedieRegressor(f64)", &model, true, mutate);
+            for (fmt, y) in r.each() {
+                check_bool(&format!("TweedieRegressor(f64).{}: restored == original", fmt), *y == model);
+                check_bool(&format!("TweedieRegressor(f64).{}: coefficients, intercept and predictions bit-identical", fmt), bits1(&y.coef, &model.coef) && y.intercept.to_bits() == model.intercept.to_bits() && bits1(&y.predict(&q), &want));
+            }
+            let rp = roundtrip("TweedieRegressorValidParams(f64)", &valid, true, mutate);
+            for (fmt, vp) in rp.each() {
+                let ok = match vp.fit(&ds) {
+                    Ok(m2) => bits1(&m2.coef, &model.coef) && m2.intercept.to_bits() == model.intercept.to_bits(),
+                    Err(_) => false,
+                };
+                check_bool(&format!("TweedieRegressorValidParams(f64).{}: refit gives the identical model", fmt), ok);
+            }
+        }
+        5 => {
+            use linfa_linear::IsotonicRegression;
+            let x1 = ndarray::array![[1.0f64], [2.0], [3.0], [4.0], [5.0], [6.0]];
+            let ds = Dataset::new(x1, ndarray::array![1.0f64, 3.0, 2.0, 4.0, 3.5, 6.0]);
+            let prm = IsotonicRegression::new();
+            let model = prm.fit(&ds).expect("isotonic fit");
+            let q1 = ndarray::array![[0.5f64], [2.5], [4.5], [7.0]];
+            let want = model.predict(&q1);
+            let r = roundtrip("FittedIsotonicRegression", &model, true, mutate);
+            for (fmt, y) in r.each() {
+                check_bool(&format!("FittedIsotonicRegression.{}: restored == original", fmt), *y == model);
+                check_bool(&format!("FittedIsotonicRegression.{}: same document (regressor and response knots)", fmt), same_document(y, &model));
+                check_bool(&format!("FittedIsotonicRegression.{}: predictions of fresh rows bit-identical", fmt), bits1(&y.predict(&q1), &want));
+            }
+        }
+        6 => {
+            // count vectoriser: regex tokenizer (restorable) and function tokenizer (documented guard)
+            use linfa_preprocessing::{CountVectorizer, Tokenizer};
+            let docs = ndarray::array!["one two three four", "two three four", "three four", "four five six"];
+            let fresh = ndarray::array!["four four two", "seven one", ""];
+            let prm = CountVectorizer::params().n_gram_range(1, 2).document_frequency(0.25, 1.0).normalize(false).stopwords(&["five"]).tokenizer(Tokenizer::Regex(r"\b\w+\b".to_string()));
+            let model = prm.fit(&docs).expect("count vectorizer fit");
+            let want = model.transform(&fresh).expect("transform").to_dense();
+            let r = roundtrip("CountVectorizer", &model, false, mutate);
+            for (fmt, y) in r.each() {
+                check_bool(&format!("CountVectorizer.{}: vocabulary (order used by transform) and its size unchanged", fmt), y.vocabulary() == model.vocabulary() && y.nentries() == model.nentries());
+                check_bool(&format!("CountVectorizer.{}: same document", fmt), same_document(y, &model));
+                check_bool(&format!("CountVectorizer.{}: counts of fresh documents unchanged", fmt), y.transform(&fresh).map(|m| m.to_dense() == want).unwrap_or(false));
+            }
+            let rp = roundtrip("CountVectorizerParams", &prm, true, mutate);
+            for (fmt, pr2) in rp.each() {
+                check_bool(&format!("CountVectorizerParams.{}: check() verdict unchanged", fmt), verdict(&pr2.check_ref()) == verdict(&prm.check_ref()));
+                check_bool(&format!("CountVectorizerParams.{}: same document", fmt), same_document(pr2, &prm));
+                let ok = match pr2.fit(&docs) {
+                    Ok(m2) => {
+                        let (mut a, mut b) = (m2.vocabulary().clone(), model.vocabulary().clone());
+                        a.sort();
+                        b.sort();
+                        a == b
+                    }
+                    Err(_) => false,
+                };
+                check_bool(&format!("CountVectorizerParams.{}: refit learns the same vocabulary", fmt), ok);
+            }
+            for (a, b) in [(0usize, 1usize), (2, 1)] {
+                let bad = CountVectorizer::params().n_gram_range(a, b);
+                let r = roundtrip("CountVectorizerParams(invalid)", &bad, true, 0);
+                for (fmt, y) in r.each() {
+                    check_bool(&format!("CountVectorizerParams.{}: an invalid set fails check() the same way", fmt), verdict(&y.check_ref()) == verdict(&bad.check_ref()) && bad.check_ref().is_err());
+                }
+            }
+            // a function tokenizer cannot be serialised: the restored vectoriser refuses to transform until the
+            // function is supplied again (documented), and then counts as before
+            fn split_ws(s: &str) -> Vec<&str> {
+                s.split(' ').collect()
+            }
+            let model = CountVectorizer::params().tokenizer(Tokenizer::Function(split_ws)).normalize(false).fit(&docs).expect("fit");
+            let want = model.transform(&fresh).expect("transform").to_dense();
+            let r = roundtrip("CountVectorizer(function tokenizer)", &model, false, 0);
+            for (fmt, y) in r.each() {
+                check_bool(&format!("CountVectorizer(function tokenizer).{}: restored value refuses to transform (TokenizerNotSet)", fmt), y.transform(&fresh).is_err());
+                let mut y2 = y.clone();
+                y2.force_tokenizer_function_redefinition(split_ws);
+                check_bool(&format!("CountVectorizer(function tokenizer).{}: after redefinition the counts are unchanged", fmt), y2.vocabulary() == model.vocabulary() && y2.transform(&fresh).map(|m| m.to_dense() == want).unwrap_or(false));
+            }
+        }
+        7 => {
+            use linfa_preprocessing::tf_idf_vectorization::{TfIdfMethod, TfIdfVectorizer};
+            let docs = ndarray::array!["one two three four", "two three four", "three four", "four five six"];
+            let fresh = ndarray::array!["four four two", "seven one", ""];
+            for method in [TfIdfMethod::Smooth, TfIdfMethod::NonSmooth, TfIdfMethod::Textbook] {
+                let r = roundtrip("TfIdfMethod", &method, true, mutate);
+                for (fmt, y) in r.each() {
+                    check_bool(&format!("TfIdfMethod.{}: restored == original", fmt), *y == method);
+                }
+            }
+            // (the public API offers no way to select another method than the default `Smooth`)
+            {
+                let prm = TfIdfVectorizer::default().n_gram_range(1, 2);
+                let model = prm.fit(&docs).expect("tf-idf fit");
+                let want = model.transform(&fresh).expect("transform").to_dense();
+                let r = roundtrip("FittedTfIdfVectorizer", &model, false, mutate);
+                for (fmt, y) in r.each() {
+                    check_bool(&format!("FittedTfIdfVectorizer.{}: vocabulary, size and method unchanged", fmt), y.vocabulary() == model.vocabulary() && y.nentries() == model.nentries() && y.method() == model.method());
+                    check_bool(&format!("FittedTfIdfVectorizer.{}: same document (vocabulary map, document frequencies, properties)", fmt), same_document(y, &model));
+                    let got = y.transform(&fresh).map(|m| m.to_dense());
+                    check_bool(&format!("FittedTfIdfVectorizer.{}: weights of fresh documents bit-identical", fmt), got.map(|g| bits2(&g, &want)).unwrap_or(false));
+                }
+                let rp = roundtrip("TfIdfVectorizer", &prm, true, mutate);
+                for (fmt, pr2) in rp.each() {
+                    check_bool(&format!("TfIdfVectorizer.{}: same document", fmt), same_document(pr2, &prm));
+                    let ok = match pr2.fit(&docs) {
+                        Ok(m2) => {
+                            let (mut a, mut b) = (m2.vocabulary().clone(), model.vocabulary().clone());
+                            a.sort();
+                            b.sort();
+                            a == b && m2.method() == model.method()
+                        }
+                        Err(_) => false,
+                    };
+                    check_bool(&format!("TfIdfVectorizer.{}: refit learns the same vocabulary with the same method", fmt), ok);
+                }
+            }
+        }
+        _ => {
+            use linfa_logistic::{LogisticRegression, MultiLogisticRegression};
+            for (alpha, tol) in [(1.0f64, 1e-4f64), (-1.0, 1e-4), (0.5, 0.0), (f64::INFINITY, 1e-4)] {
+                let prm = LogisticRegression::<f64>::default().alpha(alpha).gradient_tolerance(tol).with_intercept(false).max_iterations(7).initial_params(ndarray::array![0.25, -0.5]);
+                // JSON has no infinity: only bincode is a lossless format for that value
+                let r = roundtrip_opts("LogisticRegressionParams", &prm, true, mutate, alpha.is_finite());
+                for (fmt, y) in r.each() {
+                    check_bool(&format!("LogisticRegressionParams.{}: restored == original", fmt), *y == prm);
+                    check_bool(&format!("LogisticRegressionParams.{}: check() verdict unchanged", fmt), verdict(&y.check_ref()) == verdict(&prm.check_ref()));
+                }
+            }
+            let prm = MultiLogisticRegression::<f64>::default().alpha(0.25).initial_params(ndarray::array![[0.25, -0.5], [1.0, 2.0]]);
+            let r = roundtrip("MultiLogisticRegressionParams", &prm, true, mutate);
+            for (fmt, y) in r.each() {
+                check_bool(&format!("MultiLogisticRegressionParams.{}: restored == original", fmt), *y == prm);
+                check_bool(&format!("MultiLogisticRegressionParams.{}: check() verdict unchanged", fmt), verdict(&y.check_ref()) == verdict(&prm.check_ref()));
+            }
+        }
+    }
+    let _ = F::lit(0.0);
+}
+
+/// Is a type that derives Serialize under the `serde` feature serialisable at all?  (autoref probe, decided
+/// at compile time for the concrete type.)  Informational: not a round-trip claim, not in the registry.
+struct Probe<T>(std::marker::PhantomData<T>);
+trait NotSerialisable {
+    fn offered(&self) -> bool {
+        false
+    }
+}
+impl<T> NotSerialisable for Probe<T> {}
+impl<T: Serialize + DeserializeOwned> Probe<T> {
+    fn offered(&self) -> bool {
+        true
+    }
+}
+fn offer<F: SS>(_p: &Params) {
+    use std::marker::PhantomData as PD;
+    check_bool("offer.Kernel<f64> (derives Serialize/Deserialize) can be serialised", Probe::<linfa_kernel::Kernel<f64>>(PD).offered());
+    check_bool("offer.KernelView<f64> can be serialised", Probe::<linfa_kernel::KernelView<'static, f64>>(PD).offered());
+    check_bool("offer.the parameter set returned by KMeans::params (default generator) can be serialised", Probe::<linfa_clustering::KMeansParams<f64, rand_xoshiro::Xoshiro256Plus, linfa_nn::distance::L2Dist>>(PD).offered());
+    check_bool("offer.the parameter set returned by Ftrl::params (default generator) can be serialised", Probe::<linfa_ftrl::FtrlParams<f64, rand_xoshiro::Xoshiro256Plus>>(PD).offered());
+    check_bool("offer.the parameter set returned by GaussianMixtureModel::params (default generator) can be serialised", Probe::<linfa_clustering::GmmParams<f64, rand_xoshiro::Xoshiro256Plus>>(PD).offered());
+    let _ = F::lit(0.0);
+}
+pub fn register(v: &mut Vec<HarnessDef>) {
+    harness!(v, "c19.plain", "C19", plain,
+        "scalar-free serialisable types (neighbour selectors, metrics, algorithm markers, option enums, error enums): bincode and JSON round trips give equal values / equal messages",
+        ["serde derives of linfa_nn::{CommonNearestNeighbour,KdTree,BallTree,LinearSearch,L1Dist,L2Dist,LInfDist}", "linfa_clustering::{Dbscan,Optics,GmmCovarType,GmmInitMethod}", "linfa_trees::SplitQuality", "linfa_linear::{Link,LinearRegression,IsotonicRegression}", "linfa_svm::ExitReason", "linfa_preprocessing::{NormScaler,Whitener}", "linfa::Error, PlattError, ElasticNetError, FtrlError"],
+        ["linfa::Error::NdShape is serde(skip): checked to be refused by the serialiser"]);
+    harness!(v, "c19.error_after_skip", "C19", error_after_skip,
+        "linfa::Error variants declared after the serde(skip) variant NdShape, alone and wrapped in PlattError / ElasticNetError / FtrlError: bincode and JSON round trips",
+        ["serde derive of linfa::Error (src/error.rs: #[serde(skip)] on NdShape)", "PlattError, linfa_elasticnet::ElasticNetError, linfa_ftrl::FtrlError"],
+        []);
+    harness!(v, "c19.params", "C19", params,
+        "parameter sets with scalar fields (which = 0 k-means, 1 DBSCAN/OPTICS, 2 Gaussian mixture, 3 elastic net, 4 FTRL, 5 tree + naive Bayes, 6 scalers + Tweedie + kernel method + LpDist): round trip, ==, accessors identical, check() verdict unchanged, on both sides of every validity bound",
+        ["serde derives of KMeansParams/KMeansValidParams/KMeansInit, DbscanValidParams, OpticsParams/OpticsValidParams, GmmParams/GmmValidParams, ElasticNetValidParamsBase, FtrlParams/FtrlValidParams, DecisionTreeParams/DecisionTreeValidParams, GaussianNbValidParams, MultinomialNbValidParams, ScalingMethod, LinearScalerParams, TweedieRegressorValidParams, KernelMethod, LpDist", "the ParamGuard::check_ref of each"],
+        ["scalar hyper-parameters are quarter steps in [-1/2, 1/2] (both sides of every validity bound), centroids integers", "parameter sets that carry a random number generator are built with a serialisable generator (the crates' serde feature does not enable rand_xoshiro/serde1)"]);
+    harness!(v, "c19.kmeans", "C19", kmeans,
+        "KMeans fitted from precomputed symbolic centroids (L1): restored model ==, centroids / cluster_count / inertia identical, predict and transform on a fresh symbolic row unchanged; restored KMeansValidParams refits to the identical model",
+        ["linfa_clustering::KMeansValidParams::fit", "serde derives of KMeans, KMeansValidParams, KMeansInit, L1Dist", "KMeans::{predict, transform, centroids, cluster_count, inertia}"],
+        ["integer coordinates in [-B,B]; one run, iteration budget `iters`; paths on which the fit reports NotConverged have no model"]);
+    harness!(v, "c19.linear", "C19", linear,
+        "which=0 FittedLinearRegression (QR fit on symbolic data), which=1 ElasticNet: restored model ==/accessors identical (params, intercept, hyperplane, duality gap, n_steps, z_score), prediction on a fresh row identical, restored parameter set refits to the identical model",
+        ["linfa_linear::LinearRegression::fit", "linfa_elasticnet::ElasticNetValidParams::fit (coordinate_descent, duality_gap, variance_params)", "serde derives of LinearRegression, FittedLinearRegression, ElasticNet, ElasticNetValidParamsBase, ElasticNetError"],
+        ["p = 1 integer design whose (centred) column is not zero, integer targets"]);
+    harness!(v, "c19.multitask", "C19", multitask,
+        "MultiTaskElasticNet: hyperplane, intercept, duality gap, n_steps, z_score and predictions of the restored model identical",
+        ["linfa_elasticnet::MultiTaskElasticNetValidParams::fit (block_coordinate_descent)", "serde derive of MultiTaskElasticNet"],
+        ["p = 1 integer design whose (centred) column is not zero"]);
+    harness!(v, "c19.scaler", "C19", scaler,
+        "LinearScaler for every scaling method (which=0..5) and NormScaler (6..8): restored ==, offsets / scales / method identical, transform of a fresh row identical, restored LinearScalerParams refits identically",
+        ["linfa_preprocessing::linear_scaling::{LinearScalerParams::fit, LinearScaler::transform}", "linfa_preprocessing::norm_scaling::NormScaler::transform", "serde derives of LinearScaler, LinearScalerParams, ScalingMethod, NormScaler"],
+        ["integer data; NormScaler: the transformed row is not the zero row"]);
+    harness!(v, "c19.ftrl", "C19", ftrl,
+        "Ftrl after `steps` updates on symbolic features: z, n, hyper-parameters and weights of the restored model identical, the next update from the restored state identical; restored FtrlValidParams initialises the identical model",
+        ["linfa_ftrl::Ftrl::{new, update, get_weights, z, n}", "serde derives of Ftrl, FtrlValidParams"],
+        ["probabilities handed to update are constants (predict goes through f32 `Pr`, which concretises, and is not called)"]);
+    harness!(v, "c19.optics", "C19", optics,
+        "OpticsAnalysis of symbolic points: order, core and reachability distances of the restored analysis identical; the restored parameter set produces the identical analysis",
+        ["linfa_clustering::OpticsValidParams::transform", "serde derives of OpticsAnalysis, Sample, OpticsValidParams"],
+        ["integer 1-D points, L1 metric, linear search, integer tolerance"]);
+    harness!(v, "c19.tree", "C19", tree,
+        "DecisionTree fitted on symbolic features: restored tree node by node (split feature / value / impurity decrease, prediction, depth, feature name), importances, predictions on a fresh row; restored parameters refit to the identical tree",
+        ["linfa_trees::DecisionTreeValidParams::fit (TreeNode::fit)", "serde derives of DecisionTree, TreeNode, DecisionTreeParams, SplitQuality", "DecisionTree::{predict, root_node, feature_importance, features, max_depth, num_leaves}"],
+        ["integer features, fixed label pattern"]);
+    harness!(v, "c19.bayes", "C19", bayes,
+        "GaussianNb (which=0) / MultinomialNb (which=1) fitted on symbolic features: restored ==, same class-information document, predictions on a fresh row unchanged, restored parameters refit to the identical model",
+        ["linfa_bayes::{GaussianNbValidParams,MultinomialNbValidParams}::fit", "serde derives of GaussianNb/GaussianClassInfo, MultinomialNb/MultinomialClassInfo and their parameter sets", "NaiveBayes::predict (joint_log_likelihood)"],
+        ["integer features (counts >= 0 for the multinomial model), fixed label pattern; Gaussian model: no feature is constant over the whole data (else ln 0); the models keep their classes in a HashMap, so byte / Debug comparisons are replaced by document equality"]);
+    harness!(v, "c19.svm", "C19", svm,
+        "Svm: C-classification (which=0; kern=0 linear, 2 polynomial) with symbolic class weights on dyadic points, and epsilon-regression (which=1; f32/f64 only, so a CONCRETE f64 execution): restored ==, alpha / rho identical, nsupport, Display, decision value and prediction of a fresh symbolic row identical",
+        ["linfa_svm::SvmValidParams::fit (fit_c, fit_epsilon, SolverState::solve)", "serde derives of Svm, SeparatingHyperplane, ExitReason, KernelMethod", "Svm::{weighted_sum, predict, nsupport}"],
+        ["points are the constants 0,1,2,4; class weights quarter steps in (0,8], targets integers"]);
+    harness!(v, "c19.glm", "C19", glm,
+        "TweedieRegressor values with symbolic coefficients for every link (built through the type's own deserialiser; fit and predict are f32/f64 only, see c19.concrete which=3): restored ==, public fields identical, same document",
+        ["serde derives of TweedieRegressor, Link"],
+        ["integer coefficients"]);
+    harness!(v, "c19.concrete", "C19", concrete,
+        "CONCRETE (plain f64, constant data, one execution; not solver-decided): which=0 logistic regression binary + multinomial, 1 Gaussian mixture, 2 whitening pca/zca/cholesky, 3 Tweedie regressor, 4 logistic parameter sets, 5 isotonic regression, 6 count vectoriser (regex tokenizer; function tokenizer with its documented guard), 7 tf-idf vectoriser (c19.svm which=1: epsilon-SVR): restored ==, learned quantities and predictions bit-identical, refit identical",
+        ["linfa_logistic::{LogisticRegression,MultiLogisticRegression}::fit", "linfa_clustering::GmmValidParams::fit", "linfa_preprocessing::whitening::Whitener::fit", "linfa_linear::TweedieRegressorValidParams::fit", "linfa_linear::IsotonicRegression::fit", "linfa_preprocessing::{CountVectorizerValidParams::fit, CountVectorizer::transform, TfIdfVectorizer::fit, FittedTfIdfVectorizer::transform}", "serde derives of CountVectorizer, CountVectorizerParams/ValidParams (SerdeRegex, tokenizer guard), TfIdfVectorizer, FittedTfIdfVectorizer, TfIdfMethod, FittedIsotonicRegression, FittedLogisticRegression, MultiFittedLogisticRegression, BinaryClassLabels, ClassLabel, LogisticRegressionParams, GaussianMixtureModel, FittedWhitener, TweedieRegressor"],
+        ["f64 only, one data set"]);
+    harness!(v, "c19.offer", "C19", offer,
+        "informational (not registered): which types that derive serialisation can actually be serialised (compile-time probe)",
+        ["serde derive of linfa_kernel::KernelBase (bound on KernelInner, which derives nothing)"],
+        []);
+}
